@@ -59,7 +59,7 @@ def required_counters(tier):
         "config.permuted": 300,
         "config.keyword": 300,
         "config.revkeyword": 300,
-        "model_crosscheck": 500, "second_call_same_function": 300,
+        "model_crosscheck": 500, "second_call_same_function": 300, "decoy_union_first_member_binds_then_fails": 100,
     }
 
 
@@ -145,6 +145,20 @@ def run_signature(rec, rng, sig=None, shapes=None, retshape=None, rngkey=None, s
     names = [p[0] for p in sig["params"]]
     specs = {p[0]: p[1] for p in sig["params"]}
     anns = {n: jaxtyping.Float[np.ndarray, specs[n]] for n in names}
+    if sig.get("decoy") is None and "decoy" not in sig:
+        # one parameter may be a Union whose FIRST member can never match (its last axis is 77) but binds an axis
+        # name that the other annotations use before it fails: the Union then means exactly its second member
+        sig["decoy"] = None
+        if rng.random() < 0.3:
+            used = sorted({t.name for sp in specs.values() for t in M.parse(sp) if t.kind == "named" and not t.tree and t.name})
+            if used:
+                sig["decoy"] = [rng.choice(names), rng.choice(used), rng.choice(("{} *jtvdecoy 77", "{} ... 77", "{} 77", "{} _ 77", "#{} *jtvdecoy 77"))]
+    if sig.get("decoy"):
+        import typing
+
+        dn, dname, dform = sig["decoy"]
+        anns[dn] = typing.Union[jaxtyping.Float[np.ndarray, dform.format(dname)], anns[dn]]
+        rec.count("decoy_union_first_member_binds_then_fails")
     vals = {n: real.np_array(sh) for n, sh in zip(names, shapes)}
     ret_ann = jaxtyping.Float[np.ndarray, sig["ret"]] if sig["ret"] is not None else None
     ret_val = real.np_array(retshape) if retshape is not None else None
